@@ -24,7 +24,9 @@ static void *vp_calloc(size_t a, size_t b) { void *p = calloc(a ? a : 1, b ? b :
 static void vp_free(void *p) {
     if (!p) return;
     if (vp_free_cb) vp_free_cb(p);
-    for (int i = 0; i < vp_nwatch; i++) if (vp_watch_ptr[i] == p) vp_watch_freed[i]++;
+    /* a watch ends with the free of its block: the allocator may hand the address out again (a second free of the
+       same block is a double free, which ASan - or glibc - reports) */
+    for (int i = 0; i < vp_nwatch; i++) if (vp_watch_ptr[i] == p) { vp_watch_freed[i]++; vp_watch_ptr[i] = NULL; }
     vp_outstanding--; vp_frees++;
     free(p);
 }
@@ -35,6 +37,7 @@ static void vp_alloc_install(void) {
 }
 /* user payloads that the library may free through the memhook are allocated with this */
 static void *vp_user_alloc(size_t n) { return vp_malloc(n); }
-static int vp_watch(void *p) { if (vp_nwatch >= VP_WATCH_MAX) vp_nwatch = VP_WATCH_MAX - 1; vp_watch_ptr[vp_nwatch] = p; vp_watch_freed[vp_nwatch] = 0; return vp_nwatch++; }
+static int vp_watch(void *p) { if (vp_nwatch >= VP_WATCH_MAX) vp_nwatch = VP_WATCH_MAX - 1;
+    for (int i = 0; i < vp_nwatch; i++) if (vp_watch_ptr[i] == p) vp_watch_ptr[i] = NULL;   /* the allocator reused the address: retire the old watch (its count stays) */ vp_watch_ptr[vp_nwatch] = p; vp_watch_freed[vp_nwatch] = 0; return vp_nwatch++; }
 static void vp_watch_reset(void) { vp_nwatch = 0; }
 #endif
